@@ -25,6 +25,10 @@ func rulesC18(c *Ctx) {
 	buildersStore(c, "retrypolicy")
 	c13Builders(c)
 	c13GetDelay(c)
+	// "waiting at least a Retry-After": the delay function reads the response as the execution's last result, so the
+	// delay that is waited is computed after the attempt's result was recorded
+	c.Rule("retry-wait")
+	retryLoop(c, map[string]bool{"wait": true, "loop": true})
 	// "whichever policies are configured", the response handed back must stay readable: the contexts policies derive
 	// for an attempt (Timeout's child, the hedge's per-attempt copies) reach the transport through MergeContexts, so
 	// a policy must not cancel the winning attempt's context on the success path — Timeout cancels only from the
@@ -42,6 +46,9 @@ func rulesC18(c *Ctx) {
 	// "retried exactly for the documented retryable errors": the builders' AbortOnErrors / HandleIf go through the shared
 	// registrars (one condition per listed error)
 	c12Registrars(c)
+	// … and an attempt's outcome is put through the shared classification table of the retry policy they configure
+	c12IsFailure(c)
+	c12AnyOf(c)
 }
 
 func rulesC19(c *Ctx) {
